@@ -38,7 +38,9 @@ RULE = ("gen(seed): rig (raw peer as client of the real handler / as server of t
         "ONE violation kind out of: rsv2 / rsv3 / rsv1 without extension (on data and on control "
         "frames), rsv1 on a continuation (extension agreed), fragmented control, control > 125 "
         "bytes, continuation without start, data frame inside a fragmented message, invalid UTF-8 "
-        "(single frame, split over fragments, compressed), unknown opcode, limit+1 (single frame, "
+        "(single frame, split over fragments incl. a truncated tail followed by empty final "
+        "fragments, compressed), unknown opcode, a 64-bit length with the reserved top bit set, "
+        "limit+1 (single frame, "
         "accumulated over fragments, after inflation). expand(): that violation inserted before "
         "valid frame k for EVERY k in 0..N where it is expressible (kinds that need a message "
         "in progress / no message in progress are self-contained or skipped at the other "
@@ -69,11 +71,12 @@ _speedups.ensure()
 
 KINDS = ["rsv2", "rsv3", "rsv23", "rsv1_no_ext", "rsv1_cont", "frag_control", "long_control",
          "cont_no_start", "data_in_frag", "bad_utf8_single", "bad_utf8_split", "bad_utf8_z",
-         "unknown_opcode", "too_big_single", "too_big_frag", "too_big_inflated"]
+         "unknown_opcode", "too_big_single", "too_big_frag", "too_big_inflated", "len64_msb"]
 # not generated (corrupt deflate data is not in the statement's list); reachable by a hand-written
 # scenario only: see findings/C15-observation-corrupt-deflate-not-aborted
 EXTRA_KINDS = ["bad_deflate"]
 BAD_UTF8 = ["ff", "c328", "e282", "c0af", "eda080", "f4908080", "61e228a1", "f0288cbc", "80"]
+TRUNCATED_UTF8 = ["c3", "e282", "f09f98", "61c3a9e2", "f0"]
 SPLIT_UTF8 = [["e2", "28a1"], ["61f09f", "9828"], ["c3", "c3a9"], ["e282", "41"], ["61", "ff"]]
 
 
@@ -302,12 +305,31 @@ def _violation_frames(kind, v, inside, deflater, limit, ext):
         bad = bytes.fromhex(BAD_UTF8[(v >> 1) % len(BAD_UTF8)])
         return [fr(1, deflater.compress(b"VIOL" + bad + b"tail", "sync"), rsv=W.RSV1)]
     if kind == "bad_utf8_split":
+        if (v >> 9) % 3 == 0:
+            # the message ENDS inside a multi-byte sequence and the remaining fragment(s),
+            # incl. the final one, are empty: only the end of the message reveals it
+            out = [fr(1, b"VIOL" + bytes.fromhex(TRUNCATED_UTF8[(v >> 1) % len(TRUNCATED_UTF8)]),
+                      fin=False)]
+            if v & 0x100:
+                out.append(fr(9, b"mid"))
+            if v & 0x2000:
+                out.append(fr(0, b"", fin=False))
+            out.append(fr(0, b"", fin=True))
+            return out
         a, b = SPLIT_UTF8[(v >> 1) % len(SPLIT_UTF8)]
         out = [fr(1, b"VIOL" + bytes.fromhex(a), fin=False)]
         if v & 0x100:
             out.append(fr(9, b"mid"))
         out.append(fr(0, bytes.fromhex(b) + b"tail", fin=True))
         return out
+    if kind == "len64_msb":
+        # 64-bit length form with the reserved top bit set: declares >= 2**63 bytes (above any
+        # max_message_size, and forbidden by RFC 6455 5.2); the low 63 bits equal the number of
+        # payload bytes that really follow
+        body = (tag + b"-top-bit" * 20)[:(0, 5, 125, 126, 200)[(v >> 1) % 5]]
+        f = fr(0 if inside else ftype, body, fin=bool(v & 0x10) or not inside)
+        f["declared"] = (1 << 63) | len(body)
+        return [f]
     if kind == "too_big_single":
         return [fr(ftype, (b"VIOL" + b"a" * (limit + 1))[:limit + 1])]
     if kind == "too_big_frag":
@@ -395,7 +417,7 @@ def run(scn, full_log=False):
                               mask=R.mask_for(i + 17, i))
             for i, f in enumerate(vfr):
                 ws.send_frame(f["op"], f["payload"], fin=f["fin"], rsv=f["rsv"],
-                              mask=R.mask_for(i + 91, i))
+                              mask=R.mask_for(i + 91, i), declared_len=f.get("declared"))
             state["sent_violation"] = bool(vfr)
             when = ws.peer.tx.last_arrival
             loop.call_at(max(when, loop.time()), snapshot)
